@@ -5,3 +5,5 @@ import BalmProofs.Props.C20
 #print axioms Balm.Impl.judgeStrict_sound
 #print axioms Balm.Depth.updateDepth_local
 #print axioms Balm.Impl.isSubgraph_eq_spec
+#print axioms Balm.Impl.Dump.find_some
+#print axioms Balm.Impl.Dump.find_none
